@@ -223,6 +223,166 @@ fn cmd_a85hex_roundtrip(max_len: usize) {
     println!("{{\"cmd\":\"a85hex-roundtrip\",\"bound\":\"all plaintexts of length <= {max_len} over {{00,01,7F,80,FF,20}}, each encoding also with LF inserted at every position\",\"evaluated\":{},\"disagreements\":[{}]}}", evaluated, bad.join(","));
 }
 
+// C07 Eb: decode(reference_encode(x)) == x for the filters whose encoders are independent crates (LZW: weezl, Flate: flate2),
+// alone and chained, with PNG predictors 10..15 and the TIFF predictor 2 applied by reference encoders written from the PNG
+// specification (9.2-9.4) and TIFF 6.0 section 14. Payloads are deterministic pseudo-random bytes of several sizes and entropies
+// (the large high-entropy ones make the LZW encoder fill and reset its table).
+fn prng_bytes(seed: u32, n: usize, alphabet: u32) -> Vec<u8> {
+    let mut x = seed.wrapping_mul(2654435761).wrapping_add(12345); let mut out = Vec::with_capacity(n);
+    for _ in 0..n { x ^= x << 13; x ^= x >> 17; x ^= x << 5; out.push(((x >> 8) % alphabet) as u8); }
+    out
+}
+// PNG filtering of raw rows (encoder side): ft per row cycles through `types`
+fn png_filter_ref(raw: &[u8], row_bytes: usize, bpp: usize, types: &[u8]) -> Vec<u8> {
+    let mut out = vec![]; let zero = vec![0u8; row_bytes];
+    for (r, row) in raw.chunks(row_bytes).enumerate() {
+        let prior: &[u8] = if r == 0 { &zero } else { &raw[(r - 1) * row_bytes..r * row_bytes] };
+        let ft = types[r % types.len()]; out.push(ft);
+        for i in 0..row.len() {
+            let a = if i >= bpp { row[i - bpp] } else { 0 }; let b = prior[i]; let c = if i >= bpp { prior[i - bpp] } else { 0 };
+            out.push(match ft { 0 => row[i], 1 => row[i].wrapping_sub(a), 2 => row[i].wrapping_sub(b),
+                3 => row[i].wrapping_sub(((a as u16 + b as u16) / 2) as u8), _ => row[i].wrapping_sub(paeth_ref(a, b, c)) });
+        }
+    }
+    out
+}
+// TIFF predictor 2 (horizontal differencing), encoder side, for 8-bit components
+fn tiff2_ref(raw: &[u8], row_bytes: usize, colors: usize) -> Vec<u8> {
+    let mut out = raw.to_vec();
+    for r in 0..raw.len() / row_bytes { for i in (colors..row_bytes).rev() { out[r * row_bytes + i] = raw[r * row_bytes + i].wrapping_sub(raw[r * row_bytes + i - colors]); } }
+    out
+}
+fn cmd_filters_roundtrip(big: usize) {
+    use std::io::Write;
+    let opts = ParseOptions::default();
+    let mut evaluated = 0u64; let mut bad: Vec<String> = vec![]; let mut nbad = 0u64; let mut tiff_total = 0u64; let mut tiff_wrong = 0u64; let mut tiff_ex: Vec<String> = vec![];
+    let lzw = |x: &[u8], early: bool| -> Vec<u8> {
+        let mut e = if early { weezl::encode::Encoder::with_tiff_size_switch(weezl::BitOrder::Msb, 8) } else { weezl::encode::Encoder::new(weezl::BitOrder::Msb, 8) };
+        e.encode(x).unwrap()
+    };
+    let flate = |x: &[u8]| -> Vec<u8> { let mut e = flate2::write::ZlibEncoder::new(Vec::new(), flate2::Compression::default()); e.write_all(x).unwrap(); e.finish().unwrap() };
+    let name = |s: &str| PdfObject::Name(PdfName(s.to_string()));
+    let mut check = |what: String, dict: &PdfDictionary, enc: &[u8], plain: &[u8], tiff: bool, evaluated: &mut u64| {
+        *evaluated += 1;
+        let r = panic::catch_unwind(|| decode_stream(enc, dict, &opts));
+        let ok = matches!(&r, Ok(Ok(d)) if d.as_slice() == plain);
+        let r2 = panic::catch_unwind(|| decode_stream_with_limit(enc, dict, &opts, plain.len().max(1) * 2 + 64));
+        let ok2 = matches!(&r2, Ok(Ok(d)) if d.as_slice() == plain);
+        if tiff { tiff_total += 1; if !(ok && ok2) { tiff_wrong += 1; if tiff_ex.len() < 2 { tiff_ex.push(format!("{{\"case\":{}}}", js(&what))); } } return; }
+        if !(ok && ok2) { nbad += 1; if bad.len() < 6 {
+            let short = |r: &std::thread::Result<Result<Vec<u8>, oxidize_pdf::parser::ParseError>>| match r { Ok(Ok(d)) => format!("Ok({} bytes, first difference at {:?})", d.len(), d.iter().zip(plain.iter()).position(|(a, b)| a != b)), Ok(Err(e)) => format!("Err({e})"), Err(_) => "PANIC".to_string() };
+            bad.push(format!("{{\"case\":{},\"plain_len\":{},\"decode\":{},\"decode_with_limit\":{}}}", js(&what), plain.len(), js(&short(&r)), js(&short(&r2)))); } }
+    };
+    let sizes = [0usize, 1, 2, 3, 255, 256, 257, 1000, 4097, big];
+    for (si, &n) in sizes.iter().enumerate() { for alpha in [2u32, 16, 256] {
+        let x = prng_bytes(si as u32 * 7 + alpha, n, alpha);
+        for early in [true, false] {
+            let mut d = dict_with_filter("LZWDecode");
+            if !early { let mut p = PdfDictionary::new(); p.insert("EarlyChange".to_string(), PdfObject::Integer(0)); d.insert("DecodeParms".to_string(), PdfObject::Dictionary(p)); }
+            check(format!("LZW early={early} n={n} alphabet={alpha}"), &d, &lzw(&x, early), &x, false, &mut evaluated);
+        }
+        check(format!("Flate n={n} alphabet={alpha}"), &dict_with_filter("FlateDecode"), &flate(&x), &x, false, &mut evaluated);
+        // chain: ASCIIHex of LZW
+        let mut d = PdfDictionary::new();
+        d.insert("Filter".to_string(), PdfObject::Array(oxidize_pdf::parser::objects::PdfArray(vec![name("ASCIIHexDecode"), name("LZWDecode")])));
+        if n <= 1000 { check(format!("[ASCIIHex LZW] n={n} alphabet={alpha}"), &d, &hex_encode_ref(&lzw(&x, true)), &x, false, &mut evaluated); }
+    } }
+    // predictors: Colors x BitsPerComponent x Columns, 5 rows, filter types cycling
+    for colors in [1usize, 2, 3, 4] { for bpc in [1usize, 2, 4, 8, 16] { for columns in [1usize, 2, 5, 17] {
+        let row_bytes = (columns * colors * bpc + 7) / 8; let bpp = ((colors * bpc + 7) / 8).max(1);
+        let raw = prng_bytes((colors * 100 + bpc * 10 + columns) as u32, row_bytes * 5, 256);
+        for (outer, is_lzw) in [("FlateDecode", false), ("LZWDecode", true)] {
+            for (pred, types) in [(10i64, vec![0u8]), (11, vec![1]), (12, vec![2]), (13, vec![3]), (14, vec![4]), (15, vec![4, 1, 3, 2, 0])] {
+                let filtered = png_filter_ref(&raw, row_bytes, bpp, &types);
+                let enc = if is_lzw { lzw(&filtered, true) } else { flate(&filtered) };
+                let mut d = dict_with_filter(outer); let mut p = PdfDictionary::new();
+                for (k, v) in [("Predictor", pred), ("Colors", colors as i64), ("BitsPerComponent", bpc as i64), ("Columns", columns as i64)] { p.insert(k.to_string(), PdfObject::Integer(v)); }
+                d.insert("DecodeParms".to_string(), PdfObject::Dictionary(p));
+                check(format!("{outer} Predictor {pred} Colors {colors} BPC {bpc} Columns {columns}"), &d, &enc, &raw, false, &mut evaluated);
+            }
+            if bpc == 8 {
+                let enc0 = tiff2_ref(&raw, row_bytes, colors);
+                let enc = if is_lzw { lzw(&enc0, true) } else { flate(&enc0) };
+                let mut d = dict_with_filter(outer); let mut p = PdfDictionary::new();
+                for (k, v) in [("Predictor", 2i64), ("Colors", colors as i64), ("BitsPerComponent", 8), ("Columns", columns as i64)] { p.insert(k.to_string(), PdfObject::Integer(v)); }
+                d.insert("DecodeParms".to_string(), PdfObject::Dictionary(p));
+                check(format!("{outer} Predictor 2 (TIFF) Colors {colors} Columns {columns}"), &d, &enc, &raw, true, &mut evaluated);
+            }
+        }
+    } } }
+    println!("{{\"cmd\":\"filters-roundtrip\",\"bound\":\"LZW (weezl, both EarlyChange) / Flate (flate2) on pseudo-random payloads of 0..{big} bytes over 2/16/256-symbol alphabets; PNG predictors 10-15 and TIFF predictor 2 over Colors 1-4 x BPC 1,2,4,8,16 x Columns 1,2,5,17\",\"evaluated\":{},\"disagreement_count\":{},\"disagreements\":[{}],\"tiff_total\":{},\"tiff_wrong\":{},\"tiff_examples\":[{}]}}", evaluated, nbad, bad.join(","), tiff_total, tiff_wrong, tiff_ex.join(","));
+}
+
+// C17 Eb: histories of incremental text-note edits. (1) every history of <= len edits over {add, update an existing note, remove
+// an existing note}: each output begins with the previous file's bytes, and the notes listed afterwards are exactly the model's
+// (latest contents, removed notes gone). (2) contents: every single code point U+0020..U+02FF (alone and after "A"), a few beyond
+// the BMP, and the byte-order-mark look-alikes, added and read back.
+fn cmd_notes_history(len: usize) {
+    use oxidize_pdf::geometry::Point;
+    use oxidize_pdf::writer::{IncrementalTextNoteEditor, TextNoteId, TextNoteMutation};
+    fn base_pdf() -> Vec<u8> {
+        let objects: Vec<(u32, &[u8])> = vec![(1, b"<< /Type /Catalog /Pages 2 0 R >>"), (2, b"<< /Type /Pages /Kids [3 0 R] /Count 1 >>"),
+            (3, b"<< /Type /Page /Parent 2 0 R /MediaBox [0 0 300 300] /Annots [4 0 R] >>"), (4, b"<< /Type /Annot /Subtype /Text /Rect [10 20 30 40] /Contents (old) >>")];
+        let mut out = b"%PDF-1.7\n".to_vec(); let mut offsets = vec![0usize; 5];
+        for (num, body) in &objects { offsets[*num as usize] = out.len(); out.extend_from_slice(format!("{num} 0 obj\n").as_bytes()); out.extend_from_slice(body); out.extend_from_slice(b"\nendobj\n"); }
+        let xref = out.len(); out.extend_from_slice(b"xref\n0 5\n0000000000 65535 f \n");
+        for o in offsets.iter().skip(1) { out.extend_from_slice(format!("{o:010} 00000 n \n").as_bytes()); }
+        out.extend_from_slice(format!("trailer\n<< /Size 5 /Root 1 0 R >>\nstartxref\n{xref}\n%%EOF\n").as_bytes());
+        out
+    }
+    let base = base_pdf();
+    let mut evaluated = 0u64; let mut bad: Vec<String> = vec![]; let mut nbad = 0u64;
+    // ---- (1) histories. op 0 = add, 1 = update the oldest live note, 2 = update the newest live note, 3 = remove the oldest live note
+    let nops = 4usize;
+    for l in 1..=len { for n in 0..nops.pow(l as u32) {
+        let mut ops = vec![]; let mut m = n; for _ in 0..l { ops.push(m % nops); m /= nops; }
+        evaluated += 1;
+        let r = panic::catch_unwind(|| -> Result<(), String> {
+            let mut pdf = base.clone();
+            let mut model: Vec<(TextNoteId, String)> = vec![(TextNoteId { object_number: 4, generation_number: 0 }, "old".to_string())];
+            for (step, op) in ops.iter().enumerate() {
+                let text = format!("v{step}");
+                let mutation = match *op {
+                    0 => TextNoteMutation::Add { page_index: 0, position: Point::new(50.0 + step as f64, 60.0), contents: text.clone() },
+                    1 | 2 => { if model.is_empty() { return Ok(()); } let i = if *op == 1 { 0 } else { model.len() - 1 };
+                               TextNoteMutation::Update { id: model[i].0, position: Point::new(70.0, 80.0 + step as f64), contents: text.clone() } }
+                    _ => { if model.is_empty() { return Ok(()); } TextNoteMutation::Remove { id: model[0].0 } }
+                };
+                let upd = IncrementalTextNoteEditor::new(&pdf).apply(&[mutation.clone()]).map_err(|e| format!("step {step}: apply: {e}"))?;
+                if !upd.pdf_bytes.starts_with(&pdf) { return Err(format!("step {step}: output does not begin with the previous file")); }
+                match mutation {
+                    TextNoteMutation::Add { .. } => model.push((upd.added_notes.first().ok_or("no added note id")?.id, text)),
+                    TextNoteMutation::Update { id, .. } => { for e in model.iter_mut() { if e.0 == id { e.1 = text.clone(); } } }
+                    TextNoteMutation::Remove { id } => model.retain(|e| e.0 != id),
+                }
+                pdf = upd.pdf_bytes;
+                let mut listed: Vec<(TextNoteId, String)> = IncrementalTextNoteEditor::new(&pdf).notes().map_err(|e| format!("step {step}: notes: {e}"))?.into_iter().map(|n| (n.id, n.contents)).collect();
+                listed.sort_by_key(|e| e.0.object_number); let mut want = model.clone(); want.sort_by_key(|e| e.0.object_number);
+                if listed != want { return Err(format!("step {step}: listed {:?}, expected {:?}", listed, want)); }
+            }
+            Ok(())
+        });
+        let ok = matches!(&r, Ok(Ok(())));
+        if !ok { nbad += 1; if bad.len() < 4 { bad.push(format!("{{\"history\":{:?},\"problem\":{}}}", ops, js(&match r { Ok(Err(e)) => e, _ => "PANIC".to_string() }))); } }
+    } }
+    // ---- (2) contents
+    let mut texts: Vec<String> = vec![];
+    for cp in 0x20u32..0x300 { if let Some(c) = char::from_u32(cp) { texts.push(c.to_string()); texts.push(format!("A{c}")); } }
+    for t in ["\u{fe}\u{ff}AB", "\u{ff}\u{fe}AB", "\u{2713} done", "\u{1F600}", "\u{10FFFF}", "a\u{85}b", "(\\)"] { texts.push(t.to_string()); }
+    for t in &texts {
+        evaluated += 1;
+        let r = panic::catch_unwind(|| -> Result<String, String> {
+            let upd = IncrementalTextNoteEditor::new(&base).apply(&[TextNoteMutation::Add { page_index: 0, position: Point::new(100.0, 100.0), contents: t.clone() }]).map_err(|e| e.to_string())?;
+            let id = upd.added_notes[0].id;
+            IncrementalTextNoteEditor::new(&upd.pdf_bytes).notes().map_err(|e| e.to_string())?.into_iter().find(|n| n.id == id).map(|n| n.contents).ok_or("not listed".to_string())
+        });
+        // the API documents "non-empty note contents": a white-space-only text may be refused (an error, never a wrong value)
+        let ok = matches!(&r, Ok(Ok(g)) if g == t) || (t.trim().is_empty() && matches!(&r, Ok(Err(_))));
+        if !ok { nbad += 1; if bad.len() < 7 { bad.push(format!("{{\"contents\":{},\"read_back\":{}}}", js(&format!("{:?}", t)), js(&format!("{:?}", r.map_err(|_| "PANIC"))))); } }
+    }
+    println!("{{\"cmd\":\"notes-history\",\"bound\":\"all histories of <= {len} text-note edits (add / update oldest / update newest / remove oldest) on a one-note base file; contents: every code point U+0020..U+02FF alone and after 'A' plus 7 special strings\",\"evaluated\":{},\"disagreement_count\":{},\"disagreements\":[{}]}}", evaluated, nbad, bad.join(","));
+}
+
 fn cmd_fmt() {
     // Ec: the concrete contracts of the R6 formatting stubs used by Verus units, over all 256 bytes
     let hd = |n: u8| if n < 10 { b'0' + n } else { b'A' + n - 10 };
@@ -714,6 +874,8 @@ fn main() {
         Some("a85hex-roundtrip") => cmd_a85hex_roundtrip(args.get(2).and_then(|s| s.parse().ok()).unwrap_or(4)),
         Some("fmt") => cmd_fmt(),
         Some("opnames") => cmd_opnames(),
+        Some("notes-history") => cmd_notes_history(args.get(2).and_then(|s| s.parse().ok()).unwrap_or(3)),
+        Some("filters-roundtrip") => cmd_filters_roundtrip(args.get(2).and_then(|s| s.parse().ok()).unwrap_or(20000)),
         Some("revisions") => cmd_revisions(args.get(2).and_then(|s| s.parse().ok()).unwrap_or(2)),
         Some("objects") => cmd_objects(args.get(2).and_then(|s| s.parse().ok()).unwrap_or(2)),
         Some("png-grid") => cmd_png_grid(),
